@@ -336,7 +336,10 @@ def reference(d):
         m = o["mode"] + (np.asarray(a[0]).ndim if o["mode"] < 0 else 0)     # negative modes count from the end
         return ref_mode_dot(a[0], a[1], m, o["transpose"])
     if fn == "multi_mode_dot":
-        return ref_multi_mode_dot(a[0], a[1:], o["modes"], o["skip"], o["transpose"])
+        ms = o["modes"]
+        if ms is not None:
+            ms = [m + np.asarray(a[0]).ndim if m < 0 else m for m in ms]     # negative modes count from the end
+        return ref_multi_mode_dot(a[0], a[1:], ms, o["skip"], o["transpose"])
     if fn == "khatri_rao":
         Ms, w, mask = split_arrays(d)
         return ref_khatri_rao(skipped(Ms, o["skip"]), w, mask)
@@ -373,6 +376,9 @@ def coq_ops(d, be):
         return f"(OModeDotZ {b} ({o['mode']})%Z {C.boolc(o['transpose'])})"
     if fn == "mode_dot":
         return f"(OModeDot {b} {o['mode']}%nat {C.boolc(o['transpose'])})"
+    if fn == "multi_mode_dot" and o["modes"] is not None and any(m < 0 for m in o["modes"]):
+        zs = "[" + "; ".join(f"({m})%Z" for m in o["modes"]) + "]"
+        return f"(OMultiZ {b} {zs} {opt_nat(o['skip'])} {C.boolc(o['transpose'])})"
     if fn == "multi_mode_dot":
         return f"(OMulti {b} {opt_nat_list(o['modes'])} {opt_nat(o['skip'])} {C.boolc(o['transpose'])})"
     if fn == "khatri_rao":
@@ -550,6 +556,27 @@ def gen_descriptors(tier, rng):
                     else:
                         Ms.append(g.arr((J, s[m]), cplx))
                 yield D("multi_mode_dot", [g.arr(s, cplx)] + Ms, modes=(None if vname == "none" else modes), skip=skip, transpose=tr)
+
+    # negative modes (counted from the end): some or all modes written negatively, random operand kinds, skip, transpose.
+    # Both backends sort by the raw mode numbers; with a vector operand the later `mode - decrement` then hits the wrong mode:
+    # known finding multi_mode_dot_negative_modes (the models reproduce the code as it is).
+    for _ in range(40 if quick else 200):
+        s = tuple(rng.choice(dims) for _ in range(rng.randint(2, 3)))
+        nm = rng.randint(1, len(s))
+        pos = sorted(rng.sample(range(len(s)), nm)); rng.shuffle(pos)
+        neg = [rng.random() < 0.6 for _ in pos]
+        if not any(neg):
+            neg[rng.randrange(len(neg))] = True
+        tr = rng.random() < 0.3
+        cplx = tr and rng.random() < 0.5
+        Ms = []
+        for m in pos:
+            kind = rng.choice(["matrix", "vector"])
+            J = rng.randint(1, 3)
+            Ms.append(g.arr((s[m],), cplx) if kind == "vector" else g.arr((s[m], J) if tr else (J, s[m]), cplx))
+        skip = rng.choice([None, None, rng.randrange(len(pos))])
+        yield D("multi_mode_dot", [g.arr(s, cplx)] + Ms, modes=[m - len(s) if ng else m for m, ng in zip(pos, neg)], skip=skip, transpose=tr)
+    yield D("multi_mode_dot", [g.arr((2, 3)), g.arr((2, 2))], valid=False, modes=[-3], skip=None, transpose=False)
 
     # malformed multi_mode_dot requests (both backends must reject, as the model does): a size mismatch with both sizes >= 2
     # (np.einsum would broadcast a size-1 axis: outside the model), a mode beyond the order, a 3-D operand; a malformed operand
@@ -937,7 +964,20 @@ def _clf_einsum_negative_mode(f):
             and len(arrs) == 2 and np.asarray(arrs[1]).ndim == 2 and bool(inp.get("valid")))
 
 
-CLASSIFIERS = {"einsum_mode_dot_negative_mode_matrix": _clf_einsum_negative_mode}
+def _clf_mmd_negative_modes(f):
+    """multi_mode_dot (either backend, or their disagreement) called with at least one NEGATIVE mode and at least one non-skipped
+    VECTOR operand; every other failing input stays a VIOLATION"""
+    inp = f.get("inputs") or {}
+    o = inp.get("opts") or {}
+    arrs = inp.get("arrays") or []
+    ms = o.get("modes")
+    if not (inp.get("fn") == "multi_mode_dot" and bool(inp.get("valid")) and isinstance(ms, (list, tuple)) and any(isinstance(m, int) and m < 0 for m in ms)):
+        return False
+    return any(np.asarray(a).ndim == 1 for i, a in enumerate(arrs[1:]) if i != o.get("skip"))
+
+
+CLASSIFIERS = {"einsum_mode_dot_negative_mode_matrix": _clf_einsum_negative_mode,
+               "multi_mode_dot_negative_modes_vector": _clf_mmd_negative_modes}
 
 
 def entry_point(d, be):
@@ -1149,7 +1189,7 @@ def run(chk):
         chk.disagreement("corr:C02 (Model/Tenalg.v vs tensorly/tenalg)", describe(d, be))
     chk.assumptions = ["np.dot / np.kron / np.einsum / broadcasting multiply / reshape / transpose behave as modelled at index level in Model/Tenalg.v and Base/Tensor.v (checked on this run's cases)",
                        "floating-point rounding is outside the model; integer-valued operands keep every partial sum far below 2^53 so the comparison is exact",
-                       "size-0 modes, negative modes of multi_mode_dot (wrong in both backends when a vector operand precedes: reported, fix candidate build/fix_candidates/C02_negative_modes.diff), repeated modes with vector operands (Python reaches negative indices there), khatri_rao of 1-D operands, einsum multi_mode_dot with a size-1 operand axis on a larger mode (np.einsum broadcasts, core and model reject), higher_order_moment of order 0 (the code returns the mean, the model rejects), weights / masks that NumPy broadcasts in a degenerate way (weights longer than a single column R = 1, masks with size-1 axes or a flat mask under the einsum backend, which the core backend accepts and np.einsum rejects) are outside the model and not generated; the int / negative / scalar / flat forms of tensordot's modes and batched_modes go to the model in the form given to the code (Model/Tenalg.v validate_contraction mirrors tenalg_utils._validate_contraction_modes; an untranslatable form is reported as a broken tie); repeated modes on one tensor, bool / NumPy-integer mode arguments are not generated"]
+                       "size-0 modes, repeated modes with vector operands (Python reaches negative indices there), khatri_rao of 1-D operands, einsum multi_mode_dot with a size-1 operand axis on a larger mode (np.einsum broadcasts, core and model reject), higher_order_moment of order 0 (the code returns the mean, the model rejects), weights / masks that NumPy broadcasts in a degenerate way (weights longer than a single column R = 1, masks with size-1 axes or a flat mask under the einsum backend, which the core backend accepts and np.einsum rejects) are outside the model and not generated; the int / negative / scalar / flat forms of tensordot's modes and batched_modes go to the model in the form given to the code (Model/Tenalg.v validate_contraction mirrors tenalg_utils._validate_contraction_modes; an untranslatable form is reported as a broken tie); repeated modes on one tensor, bool / NumPy-integer mode arguments are not generated"]
     chk.trusted = ["explicit-loop NumPy reference formulas in harness/props/C02.py (spec-side transcription used by the Python predicate)",
                    "higher_order_moment is compared as n_samples * moment (the division by n_samples is checked to be integer-exact to 1e-9)"]
     return chk.finish(CLASSIFIERS)
